@@ -62,6 +62,7 @@ type scenario struct {
 	world      int
 	roF, roK   int // reorg: roK empty blocks on top of main height roF (roK = 0: none)
 	fwd        int // empty blocks mined on top of the tip AFTER the pool was filled
+	admPre     bool // real pool filled BEFORE the reorganisation (and not told about it)
 	now        int64
 	addr       bool
 	upd        bool // connect the time/extra-nonce updated block instead of the original one
@@ -131,8 +132,8 @@ func (t txSpec) String() string {
 
 func (s *scenario) line() string {
 	var b strings.Builder
-	fmt.Fprintf(&b, "C12 tmpl w=%d ro=%d:%d fwd=%d now=%d addr=%s upd=%s pb=%s src=%s pol=%d:%d:%d:%d h=%d mtp=%d seg=%s csv=%s cbw=%d cbs=%d hv=%d mat=%d",
-		s.world, s.roF, s.roK, s.fwd, s.now, b2s(s.addr), b2s(s.upd), b2s(s.pb), s.src, s.minW, s.maxW, s.prioSize, s.minFree,
+	fmt.Fprintf(&b, "C12 tmpl w=%d ro=%d:%d fwd=%d adm=%s now=%d addr=%s upd=%s pb=%s src=%s pol=%d:%d:%d:%d h=%d mtp=%d seg=%s csv=%s cbw=%d cbs=%d hv=%d mat=%d",
+		s.world, s.roF, s.roK, s.fwd, b2s(s.admPre), s.now, b2s(s.addr), b2s(s.upd), b2s(s.pb), s.src, s.minW, s.maxW, s.prioSize, s.minFree,
 		s.nextH, s.mtp, b2s(s.seg), b2s(s.csv), s.cbw, s.cbs, s.halving, s.maturity)
 	for _, t := range s.txs {
 		b.WriteString(" tx=")
@@ -252,6 +253,8 @@ func parseScenario(f []string) *scenario {
 		case "ro":
 			g := strings.Split(v, ":")
 			s.roF, s.roK = int(pint(g[0])), int(pint(g[1]))
+		case "adm":
+			s.admPre = v == "1"
 		case "fwd":
 			s.fwd = int(pint(v))
 		case "now":
